@@ -38,7 +38,31 @@ def m1(ctx):
     b = fn(crate, "ematch_all", "rewrite/ematch.rs")
     lp = _loop_over(b, "ids")
     if lp is None:
-        raise mir.AnchorMissing("loop over EGraph::ids() in ematch_all")
+        # adaptor form: ids().into_iter().flat_map(|i| ematch_impl(.., identity(i), ..)).map(final_subst).collect()
+        chains = C.adaptor_chains(b, "ids")
+        if not chains:
+            raise mir.AnchorMissing("loop or adaptor chain over EGraph::ids() in ematch_all")
+        for ch in chains:
+            names = [n for n, _ in ch["adaptors"]]
+            bad = sorted(n for n in names if n in BAD_ADAPTORS or (n not in C.PASS_ADAPTORS and n not in ("flat_map", "map", "for_each", "extend")))
+            ctx.check(not bad, "all-classes", "ematch_all feeds every class of ids() through the matcher (chain: %s)" % names,
+                      "ematch_all iterates ids() through %s: classes can be dropped before they are searched" % bad, where_of(b, ch["sink"].bb))
+            ctx.check(not bad, "ids-unfiltered", "no dropping adaptor between ids() and the result", "ematch_all iterates ids() through %s" % bad, where_of(b, ch["sink"].bb))
+            ctx.check(not bad, "results-unfiltered", "every state returned for a class is turned into a substitution (no filter between)", "ematch_all drops matcher results through %s" % bad, where_of(b, ch["sink"].bb))
+            n_imp = 0
+            for n, cl in ch["adaptors"]:
+                if n in ("flat_map", "map", "for_each") and hasattr(cl, "calls"):
+                    for c in cl.calls:
+                        if c.callee and c.callee.name == "ematch_impl":
+                            n_imp += 1
+                            r = strip_role(cl.role_of_operand(c.args[2]))
+                            elem = [cl.var_names.get(l) for l in range(2, cl.argc + 1)]
+                            ok = r[0] == "call" and "identity" in r[1] and any(role_mentions_param(r, e) for e in elem if e)
+                            ctx.check(ok, "root-is-identity-invocation", "each class is matched through its identity invocation", "ematch_all matches class i through %s" % role_str(r), where_of(cl, c.bb))
+                            r1 = strip_role(cl.role_of_operand(c.args[1]))
+                            ctx.check(r1[0] == "call" and r1[1] == "default", "root-state-empty", "matching of a class starts from the empty state", "matching starts from state %s" % role_str(r1), where_of(cl, c.bb))
+            ctx.floor("ematch_impl calls in the class chain", n_imp, 1)
+        return
     ctx.check(C.loop_exhaustive(b, lp), "all-classes", "the class loop of ematch_all exits only when ids() is exhausted",
               "ematch_all can leave its class loop early: classes after the exit are never searched", where_of(b, lp[0]))
     it = lp[1]
@@ -67,7 +91,35 @@ def m2(ctx):
     b = fn(crate, "ematch_impl", "rewrite/ematch.rs")
     lp = _loop_over(b, "enodes_applied")
     if lp is None:
-        raise mir.AnchorMissing("loop over enodes_applied in ematch_impl")
+        # adaptor form: enodes_applied(&i).iter().filter(|nn| discriminant(nn) == discriminant(n)).for_each(|nn| ematch_node(..))
+        chains = C.adaptor_chains(b, "enodes_applied")
+        if not chains:
+            raise mir.AnchorMissing("loop or adaptor chain over enodes_applied in ematch_impl")
+        for ch in chains:
+            names = [n for n, _ in ch["adaptors"]]
+            bad = []
+            nn = 0
+            for n, cl in ch["adaptors"]:
+                if n in C.PASS_ADAPTORS:
+                    continue
+                if n == "filter" and hasattr(cl, "calls"):
+                    # the only admissible filter: operator (discriminant) equality
+                    r = strip_role(cl.role_of_local(0))
+                    ds = [x for x in role_walk(r) if isinstance(x, tuple) and x[0] == "call" and x[1] == "discriminant"]
+                    if isinstance(r, tuple) and r[0] == "call" and r[1] in ("eq",) and len(ds) + (1 if any(isinstance(x, tuple) and x[0] in ("upvar", "field", "param") for x in role_walk(r)) else 0) >= 2 and ds:
+                        continue
+                    bad.append("filter(%s)" % role_str(r)[:60])
+                elif n in ("for_each", "map", "flat_map") and hasattr(cl, "calls"):
+                    nn += sum(1 for c in cl.calls if c.callee and c.callee.name == "ematch_node")
+                else:
+                    bad.append(n)
+            ctx.check(not bad, "all-enodes", "every e-node of enodes_applied(i) with the pattern node's operator is handed to ematch_node (chain: %s)" % names,
+                      "the e-node chain of ematch_impl drops e-nodes through %s" % bad, where_of(b, ch["sink"].bb))
+            ctx.check(not bad, "enodes-unfiltered", "no dropping adaptor on enodes_applied(i) other than the operator test", "the e-node chain iterates through %s" % bad, where_of(b, ch["sink"].bb))
+            r = strip_role(ch["source"][3][1]) if len(ch["source"][3]) > 1 else None
+            ctx.check(r == ("param", "i"), "enodes-of-queried-invocation", "e-nodes are those of the queried invocation i", "the e-node chain enumerates %s" % role_str(r), where_of(b, ch["sink"].bb))
+            ctx.floor("ematch_node call sites", nn, 1)
+        return
     ctx.check(C.loop_exhaustive(b, lp), "all-enodes", "the e-node loop exits only when enodes_applied(i) is exhausted",
               "the e-node loop of ematch_impl can be left early", where_of(b, lp[0]))
     bad = sorted({x[1] for x in role_walk(lp[1]) if isinstance(x, tuple) and x[0] == "call" and x[1] in BAD_ADAPTORS})
